@@ -144,30 +144,63 @@ def check(prog, run):
                        "meta field is returned); includeDeprecated resolvers keep a member iff it is not deprecated or the flag is set", 2)
     fdn = prog.get_func(WRAP, "ResolutionContext.field_definition")
     run.looked_at(fdn)
-    meta_if = None
-    for n in own_nodes(fdn.node):
-        if isinstance(n, ast.If) and isinstance(n.test, ast.Compare) and isinstance(n.test.ops[0], ast.In) and "__schema" in ast.unparse(n.test):
-            meta_if = n
-    shapes.require(meta_if is not None, "C15.T4: meta-name branch not found in field_definition")
-    names = set(prog.fold(prog.module(WRAP), meta_if.test.comparators[0]))
+    from .. import boolx
+    member_tests = [n for n in own_nodes(fdn.node) if isinstance(n, ast.Compare) and len(n.ops) == 1 and isinstance(n.ops[0], (ast.In, ast.NotIn))
+                    and "__schema" in ast.unparse(n.comparators[0])]
+    shapes.require(len(member_tests) == 1, "C15.T4: meta-name membership test not found in field_definition")
+    names = set(prog.fold(prog.module(WRAP), member_tests[0].comparators[0]))
     r.instance("meta names %s" % sorted(names))
     if names != {"__schema", "__type", "__typename"}:
-        run.report(r, "%s:ResolutionContext.field_definition:meta-names" % WRAP, fdn.where(meta_if), "meta-name branch covers %s" % sorted(names))
-    sw = [n for n in ast.walk(meta_if) if isinstance(n, ast.If) and "_disable_introspection" in ast.unparse(n.test)]
-    outside = [n for n in own_nodes(fdn.node) if isinstance(n, ast.If) and "_disable_introspection" in ast.unparse(n.test) and n not in sw]
-    r.instance("disable switch inside meta branch: %s, outside: %s" % (len(sw), len(outside)))
-    if len(sw) != 1 or outside:
-        run.report(r, "%s:ResolutionContext.field_definition:switch-placement" % WRAP, fdn.where(),
-                   "the disable_introspection test is not confined to the meta-name branch: ordinary fields are affected or meta fields escape it")
-    else:
-        s0 = sw[0]
-        if not (ast.unparse(s0.test) == "self._disable_introspection" and len(s0.body) == 1 and isinstance(s0.body[0], ast.Return)
-                and isinstance(s0.body[0].value, ast.Constant) and s0.body[0].value.value is None):
-            run.report(r, "%s:ResolutionContext.field_definition:switch-shape" % WRAP, fdn.where(s0), "the switch does not `return None` when introspection is disabled")
-        # it must be the first test of the chain that assigns meta fields
-        assigns_before = [x for x in ast.walk(meta_if) if isinstance(x, ast.Assign) and "INTROSPECTION_FIELD" in ast.unparse(x.value) and x.lineno < s0.lineno]
-        if assigns_before:
-            run.report(r, "%s:ResolutionContext.field_definition:switch-order" % WRAP, fdn.where(s0), "a meta field is selected before the disable switch is consulted")
+        run.report(r, "%s:ResolutionContext.field_definition:meta-names" % WRAP, fdn.where(member_tests[0]), "meta-name branch covers %s" % sorted(names))
+    member_atom = boolx.canonical_atom(member_tests[0])[0]
+    name_var = ast.unparse(member_tests[0].left)
+
+    def returned(st, env):
+        atoms = {a: b for a, b in env.items() if a not in boolx.META}
+        return boolx.path_value(env.get(boolx.STMTS, ()), st, st.value, atoms) if st.value is not None else ast.Constant(value=None)
+
+    # (a) introspection disabled, a meta name: every execution that is not a cache hit returns None
+    for meta in sorted(names):
+        def decide(t, meta=meta):
+            if t == "self._disable_introspection":
+                return True
+            if t == member_atom:
+                return True
+            if t.startswith("%s == " % name_var):
+                return t == "%s == %r" % (name_var, meta)
+            return None
+        try:
+            _ev, exits = boolx.walk_under(fdn.node, decide)
+        except ValueError as e:
+            raise AnalysisError("C15.T4: %s" % e)
+        n_exec = 0
+        for kind, st, env in exits:
+            if kind != "return":
+                continue
+            v = returned(st, env)
+            if isinstance(st.value, ast.Subscript):
+                continue   # cache hit: whatever an earlier (identical) call stored
+            n_exec += 1
+            if not (isinstance(v, ast.Constant) and v.value is None):
+                run.report(r, "%s:ResolutionContext.field_definition:switch-shape" % WRAP, fdn.where(st),
+                           "with introspection disabled, field_definition(%s) can return `%s`: the meta field stays reachable"
+                           % (meta, ast.unparse(v)))
+                break
+        r.instance("disabled: %s -> None on %d executions" % (meta, n_exec))
+    # (b) an ordinary field name: the switch is never consulted
+    def decide_plain(t):
+        if t == member_atom:
+            return False
+        return None
+    try:
+        _ev, exits = boolx.walk_under(fdn.node, decide_plain)
+    except ValueError as e:
+        raise AnalysisError("C15.T4: %s" % e)
+    consulted = [(kind, st) for kind, st, env in exits if "self._disable_introspection" in env]
+    r.instance("ordinary names: %d executions, switch consulted on %d" % (len(exits), len(consulted)))
+    if consulted:
+        run.report(r, "%s:ResolutionContext.field_definition:switch-placement" % WRAP, fdn.where(consulted[0][1]) if consulted[0][1] is not None else fdn.where(),
+                   "the disable_introspection test is not confined to the meta names: ordinary fields are affected by it")
     # the members' own definition of `deprecated` (Field: bool(reason); EnumValue: reason is not None) is what
     # isDeprecated reports, so the visibility filter must use that very attribute
     n_filters = 0
